@@ -514,3 +514,5 @@ H("c15_entry_macos", module="verif_arm64.rs", variant="macos", props=["C15", "C1
   shared={"C15.entry.macos.lands": ["C11"]})
 
 H("c05_no_guard_before_writable", module="verif_amd64.rs", props=["C05", "C12"], fns=[(AMD, "patch_and_guard"), (COM, "new"), (COM, "drop")], expects_panic=True, covers=[], covers_unreachable=["COVER:installed-despite-mprotect-failure"])
+for _h in ("lifecycle_near", "lifecycle_bool", "lifecycle_far"):
+    HARNESSES[_h]["props"] = sorted(set(HARNESSES[_h]["props"]) | {"C11"})
